@@ -30,6 +30,13 @@ import (
 //@   pure
 //@   ensures first: len(h.Values(key)) > 0 ==> v == h.Values(key)[0]
 
+// Reading a cookie: a deterministic function of the request and the name (the request is not
+// written inside one decoder method).
+//@ extern func (r *http.Request) Cookie(name string) (c *http.Cookie, err error)
+//@   pure
+//@   ensures found: err == nil ==> c != nil
+//@   ensures none:  err != nil ==> c == nil
+
 var (
 	_ http.Header
 	_ = strings.EqualFold
